@@ -188,6 +188,19 @@ type tScreen struct {
 }
 
 func (t *tScreen) Init() error {
+	// a second Init must not replace the channels the first one made:
+	// PollEvent and ChannelEvents of a running or finished screen wait
+	// on them
+	t.Lock()
+	fini, running := t.fini, t.running
+	t.Unlock()
+	if fini {
+		return errors.New("screen is finished")
+	}
+	if running {
+		return errors.New("already engaged")
+	}
+
 	if e := t.initialize(); e != nil {
 		return e
 	}
